@@ -4,6 +4,7 @@ go 1.25.0
 
 require (
 	github.com/hashicorp/go-msgpack/v2 v2.1.5
+	github.com/hashicorp/logutils v1.0.0
 	github.com/hashicorp/serf v0.0.0
 )
 
@@ -27,7 +28,6 @@ require (
 	github.com/hashicorp/go-sockaddr v1.0.7 // indirect
 	github.com/hashicorp/go-syslog v1.0.0 // indirect
 	github.com/hashicorp/golang-lru v1.0.2 // indirect
-	github.com/hashicorp/logutils v1.0.0 // indirect
 	github.com/hashicorp/mdns v1.0.7 // indirect
 	github.com/hashicorp/memberlist v0.5.4 // indirect
 	github.com/huandu/xstrings v1.3.3 // indirect
